@@ -134,3 +134,85 @@ Proof.
   exists g'. split; [exact E|]. split; [exact Ho|]. exists n'. split; [exact Hg|].
   intros attr v Hv. rewrite Hat, Hv. reflexivity.
 Qed.
+
+(** ** the later steps of resolve(): bonds and sorting keep the dictionaries *)
+Lemma gfind_app_found g h k n : gfind k g = Some n -> gfind k (g ++ h) = Some n.
+Proof. induction g as [|m r IH]; cbn; [discriminate|]. destruct (Z.eqb (nk m) k); [auto|exact IH]. Qed.
+(** G.add_edge never touches the attribute dict of a node that exists, whatever the end points are *)
+Lemma attrs_add_edge_existing g u v d k : has_node g k = true -> node_attrs (add_edge g u v d) k = node_attrs g k.
+Proof.
+  intros Hk. unfold add_edge.
+  set (g1 := if has_node g u then g else g ++ [{| nk := u; na := []; nadj := [] |}]).
+  set (g2 := if has_node g1 v then g1 else g1 ++ [{| nk := v; na := []; nadj := [] |}]).
+  assert (E : node_attrs g2 k = node_attrs g k).
+  { unfold has_node in Hk. destruct (gfind k g) as [n|] eqn:G; [|discriminate]. unfold node_attrs. rewrite G.
+    assert (G1 : gfind k g1 = Some n) by (unfold g1; destruct (has_node g u); [exact G|now apply gfind_app_found]).
+    assert (G2 : gfind k g2 = Some n) by (unfold g2; destruct (has_node g1 v); [exact G1|now apply gfind_app_found]).
+    now rewrite G2. }
+  rewrite <- E. unfold node_attrs. rewrite !gfind_gupdate by reflexivity.
+  destruct (gfind k g2) as [n|]; destruct (Z.eqb k v), (Z.eqb k u); reflexivity.
+Qed.
+Lemma has_node_add_edge_mono g u v d k : has_node g k = true -> has_node (add_edge g u v d) k = true.
+Proof. intros H. apply has_node_add_edge. now left. Qed.
+Lemma node_get_of_attrs g h k : node_attrs h k = node_attrs g k -> forall key, node_get h k key = node_get g k key.
+Proof.
+  unfold node_attrs, node_get. intros E key. destruct (gfind k h), (gfind k g); try discriminate; [inversion E; congruence|reflexivity].
+Qed.
+Lemma has_node_set g j a v k : has_node (set_node_attr g j a v) k = has_node g k.
+Proof.
+  unfold has_node. rewrite gfind_set_node_attr. destruct (Z.eqb k j); [|reflexivity]. now destruct (gfind k g).
+Qed.
+(** one bond: the edge, and in the all-atom case the hcount bookkeeping of its two ends *)
+Lemma apply_bond_keeps all_atom mol b mol' : apply_bond all_atom mol b = Ok mol' ->
+  forall k, has_node mol k = true -> has_node mol' k = true /\
+    forall key, key <> S "hcount" -> node_get mol' k key = node_get mol k key.
+Proof.
+  unfold apply_bond. set (mol1 := add_edge mol (b_u b) (b_v b) (bond_attrs b)). intros H k Hk.
+  assert (B : has_node mol1 k = true /\ forall key, node_get mol1 k key = node_get mol k key).
+  { split; [now apply has_node_add_edge_mono|]. apply node_get_of_attrs. now apply attrs_add_edge_existing. }
+  destruct all_atom; [|inversion H; subst; destruct B as [B1 B2]; split; [exact B1|intros key _; apply B2]].
+  revert H. generalize [b_u b; b_v b]. intros l. destruct B as [B1 B2].
+  assert (G : forall l m, has_node m k = true -> (forall key, key <> S "hcount" -> node_get m k key = node_get mol k key) ->
+                fold_res (fun m0 n =>
+                   el <- of_option (node_get m0 n (S "element")) EKey ;;
+                   if pyval_eqb el (VStr (S "H")) then Ok m0 else
+                   hc <- of_option (node_get m0 n (S "hcount")) EKey ;;
+                   let ar := match node_get m0 n (S "aromatic") with Some v => truthy v | None => true end in
+                   hc' <- dec_hcount ar hc ;; Ok (set_node_attr m0 n (S "hcount") hc')) l m = Ok mol' ->
+                has_node mol' k = true /\ forall key, key <> S "hcount" -> node_get mol' k key = node_get mol k key).
+  { clear. induction l as [|n r IH]; intros m Hm Hg H; cbn [fold_res] in H; [inversion H; subst; auto|].
+    destruct (node_get m n (S "element")) as [el|]; cbn [of_option bind] in H; [|discriminate].
+    destruct (pyval_eqb el (VStr (S "H"))); cbn [bind] in H; [now apply (IH m)|].
+    destruct (node_get m n (S "hcount")) as [hc|]; cbn [of_option bind] in H; [|discriminate].
+    destruct (dec_hcount _ hc) as [hc'|]; cbn [bind] in H; [|discriminate].
+    apply (IH (set_node_attr m n (S "hcount") hc')); [now rewrite has_node_set| |exact H].
+    intros key Nk. rewrite <- (Hg key Nk). unfold node_get. rewrite gfind_set_node_attr.
+    destruct (Z.eqb k n); [|reflexivity]. destruct (gfind k m); cbn; [now apply aget_aset_other|reflexivity]. }
+  intros H. apply (G l mol1 B1); [intros key _; apply B2|exact H].
+Qed.
+(** edges_from_bonding_descrpt (model GraphOps.bonding_step): every node keeps every key but hcount *)
+Theorem bonding_keeps_annotation legacy all_atom meta mol fgs mol' fgs' :
+  bonding_step legacy all_atom meta mol fgs = Ok (mol', fgs') ->
+  forall k, has_node mol k = true -> has_node mol' k = true /\
+    forall key, key <> S "hcount" -> node_get mol' k key = node_get mol k key.
+Proof.
+  unfold bonding_step. destruct (bonds_of legacy meta mol fgs) as [[s1 bonds]|]; cbn [bind]; [|discriminate].
+  destruct (fold_res (apply_bond all_atom) bonds mol) as [m|] eqn:E; cbn [bind]; [|discriminate].
+  intros H. inversion H; subst m fgs'. clear H. revert mol E.
+  induction bonds as [|b r IH]; intros mol E k Hk; cbn [fold_res] in E; [inversion E; subst; auto|].
+  destruct (apply_bond all_atom mol b) as [m1|] eqn:E1; cbn [bind] in E; [|discriminate].
+  destruct (apply_bond_keeps _ _ _ _ E1 k Hk) as [H1 G1]. destruct (IH m1 E k H1) as [H2 G2].
+  split; [exact H2|]. intros key Nk. rewrite G2, G1 by exact Nk. reflexivity.
+Qed.
+
+(** sort_nodes_by_attr (the resolver component's SortGraphProofs.sort_graph): the returned graph has the
+    nodes under the sorting permutation [map_get m], each with its dictionary (ez_isomer_atoms, which holds
+    node references, is rewritten by the same permutation) *)
+From CGV Require Import Hydro.SquashDefs Resolve.SortGraphProofs.
+Theorem sort_keeps_annotation g h : wf_graph g -> map fst (get_node_attributes g (S "fragid")) = node_keys g ->
+  sort_nodes_by_attr g = Ok h ->
+  exists m, sort_mapping g = Ok m /\
+    forall k key, In k (node_keys g) -> key <> S "ez_isomer_atoms" -> node_get h (map_get m k) key = node_get g k key.
+Proof.
+  intros W A H. destruct (sort_graph g h W A H) as [m [Em [_ [_ [_ [_ N]]]]]]. exists m. split; [exact Em|exact N].
+Qed.
